@@ -817,7 +817,7 @@ class Evaluator:
             return VInt(1 if base.width is None else 2)
         if isinstance(base, VList) and base.nd and attr == 'dtype':
             return VElem(z3.Const('some_dtype', Elem))
-        if isinstance(base, VAssoc) and attr in ('values', 'keys'):
+        if isinstance(base, VAssoc) and attr in ('values', 'keys', 'append'):
             return VFunc('assocmethod', attr, self_val=base)
         if type(base).__name__ == 'VMat':
             return self.mat_getattr(base, attr, st, node)
